@@ -42,15 +42,17 @@ type Garble struct {
 
 // Plan is a C12 plan.
 type Plan struct {
-	Init    int      `json:"init"`
-	Max     int      `json:"max"`
-	Gap     int      `json:"gap"`
-	Phase1  []WOp    `json:"phase1"`
-	Phase2  []WOp    `json:"phase2"`
-	Tails   []int    `json:"tails"`
-	Random  [][]byte `json:"random"`
-	Garbles []Garble `json:"garbles"`
-	Single  int      `json:"single"`
+	Init int `json:"init"`
+	Max  int `json:"max"`
+	Gap  int `json:"gap"`
+	// CfgStyle: how the options reach the effective configuration (see historyOptions)
+	CfgStyle int      `json:"cfgstyle,omitempty"`
+	Phase1   []WOp    `json:"phase1"`
+	Phase2   []WOp    `json:"phase2"`
+	Tails    []int    `json:"tails"`
+	Random   [][]byte `json:"random"`
+	Garbles  []Garble `json:"garbles"`
+	Single   int      `json:"single"`
 }
 
 var typs = []string{"TA", "TB"}
@@ -75,6 +77,11 @@ func Gen(t *rapid.T) Plan {
 		p.Init = rapid.IntRange(1, 8).Draw(t, "init")
 		p.Max = rapid.IntRange(p.Init, 4*p.Init).Draw(t, "max")
 		p.Gap = rapid.IntRange(0, p.Init-1).Draw(t, "gap")
+
+		if rapid.IntRange(0, 3).Draw(t, "cfgalt") == 0 {
+			p.Max = p.Init
+			p.CfgStyle = rapid.IntRange(1, 2).Draw(t, "cfgstyle")
+		}
 	}
 
 	p.Phase1 = genWOps(t, "phase1", 0, 50)
@@ -351,7 +358,7 @@ func runBubble(p Plan, foreign []state.Bookmark) (v hk.Verdict) {
 
 	w := &world{
 		ctx: ctx,
-		st:  sim.NewNamespaced(inmem.WithHistoryInitialCapacity(p.Init), inmem.WithHistoryMaxCapacity(p.Max), inmem.WithHistoryGap(p.Gap)),
+		st:  sim.NewNamespaced(historyOptions(p.Init, p.Max, p.Gap, p.CfgStyle)...),
 		log: map[string][]model.Commit{}, cur: map[model.Key]*model.Res{}, bm: map[string][]state.Bookmark{},
 	}
 
@@ -767,4 +774,19 @@ func HelperMain() {
 		e = <-ch
 		fmt.Printf("BOOKMARK %x\n", []byte(e.Bookmark))
 	}
+}
+
+// historyOptions builds the inmem options for the effective (init, max, gap) configuration. style 0 gives them in the
+// natural way; styles 1 and 2 (only when init == max) reach the same effective configuration through the options'
+// own normalisation: 1 = a smaller max first, then the initial capacity (which raises max); 2 = a larger initial
+// capacity first, then max (which lowers the initial capacity).
+func historyOptions(init, maxCap, gap, style int) []inmem.StateOption {
+	switch {
+	case style == 1 && init == maxCap && init > 1:
+		return []inmem.StateOption{inmem.WithHistoryMaxCapacity(init / 2), inmem.WithHistoryInitialCapacity(init), inmem.WithHistoryGap(gap)}
+	case style == 2 && init == maxCap:
+		return []inmem.StateOption{inmem.WithHistoryInitialCapacity(2*maxCap + 3), inmem.WithHistoryMaxCapacity(maxCap), inmem.WithHistoryGap(gap)}
+	}
+
+	return []inmem.StateOption{inmem.WithHistoryInitialCapacity(init), inmem.WithHistoryMaxCapacity(maxCap), inmem.WithHistoryGap(gap)}
 }
